@@ -41,7 +41,9 @@ func c16Sizes() []struct {
 		peg  uint64
 	}{{"1", 1}, {"b/3", bankPEG / 3}, {"b/2", bankPEG / 2}, {"b-1", bankPEG - 1}, {"b", bankPEG}, {"b+1", bankPEG + 1}, {"3b", 3 * bankPEG},
 		// a request of a few units next to a whale of 12 banks: its proportional share floors to 0 while its refund (several units) does not
-		{"10u", 10}, {"12b", 12 * bankPEG}}
+		{"10u", 10}, {"12b", 12 * bankPEG},
+		// half a PEG: request x bank lies just above 2^64 (the products of the other sizes are far below or far above)
+		{"0.5", 5e7}}
 }
 
 // c16Exec is the height at which every scenario's requests execute (funding 289..292, then either a graded filler
